@@ -705,14 +705,31 @@ def extra_shift(p):
     """by how much `with_extra` moves the items of `p` (0 when the relation is declared already: the program is itself a mutant)"""
     return 0 if any(it["t"] == "rel" and it["name"] == EXTRA for it in p["items"]) else 1
 
+WRAPS = {
+    # pattern kinds `pattern_get_vars` / `pattern_visit_vars_mut` must look into: (pattern, value, values of a `for`)
+    "paren": (lambda v: f"({v})", "7", "0..2"),
+    "slice": (lambda v: f"[{v}, _]", "[7, 8]", "[[0, 1], [1, 2]]"),
+    "tuple": (lambda v: f"({v}, _)", "(7, 8)", "[(0, 1), (1, 2)]"),
+    "ref": (lambda v: f"&{v}", "&7", "[0, 1].iter()"),
+    "at": (lambda v: f"{v} @ _", "7", "0..2"),
+}
+
+
 def rebinder(form, v, paren=False):
-    pv = f"({v})" if paren else v
-    seen, hid = [v], []      # since fix f47e99d `pattern_get_vars` descends into Pat::Paren (finding FM1)
-    if form == "let": return B("let", pv, seen, "7", hid)
-    if form == "iflet": return B("iflet", f"Some({pv})", seen, "Some(7)", hid)
-    if form == "for": return B("for", pv, seen, "0..2", hid)
+    """a binder of `v`; `paren`: False | True (= "paren") | one of WRAPS — the variable sits under that kind of sub-pattern"""
+    wrap = "paren" if paren is True else paren
+    seen, hid = [v], []      # `pattern_get_vars` descends into every sub-pattern kind (Pat::Paren since fix f47e99d, finding FM1)
+    if not wrap:
+        pv, val, vals = v, "7", "0..2"
+    else:
+        mk, val, vals = WRAPS[wrap]
+        pv = mk(v)
+    if form == "let": return B("let", pv, seen, val, hid)
+    if form == "iflet": return B("iflet", f"Some({pv})" if wrap != "typed" else f"Some(({v}, _))", seen, f"Some({val})", hid)
+    if form == "for": return B("for", pv if wrap != "typed" else f"({v}, _)", seen, vals or "[(0, 1), (1, 2)]", hid)
+    if form == "clausecond": return CL(EXTRA, [W(), W()], [B("iflet", f"Some({pv})" if wrap != "typed" else f"Some(({v}, _))", seen, f"Some({val})", hid)])
+    if wrap not in (False, None, "paren", "at"): return None      # the aggregation result and a column of the relation are plain i32 values
     if form == "aggpat": return AGG(pv, seen, "min", ["zg9"], EXTRA, [V("zg9"), W()], hid)
-    if form == "clausecond": return CL(EXTRA, [W(), W()], [B("iflet", f"Some({pv})", seen, "Some(7)", hid)])
     return CL(EXTRA, [W(), PAT(f"Some({pv})", seen, hid)])
 
 
@@ -731,6 +748,7 @@ def mut_rebind(p, paren=False):
             v = g_all[(k * 7) % len(g_all)]
             for form in BINDERS:
                 new = rebinder(form, v, paren)
+                if new is None: continue
                 q = with_extra(copy.deepcopy(p))
                 qpath = ("items", path[1] + extra_shift(p)) + tuple(path[2:])
                 get(q, qpath).insert(k, new)
@@ -739,7 +757,7 @@ def mut_rebind(p, paren=False):
                     # form behaves like every other binder, in process (all spans equal) as under rustc
                     faithful = True
                 else: faithful = v in g_in
-                yield mutant(q, "rebind", form + ("-paren" if paren else ""), poskind(ctx), faithful=faithful)
+                yield mutant(q, "rebind", form + (("-" + ("paren" if paren is True else paren)) if paren else ""), poskind(ctx), faithful=faithful)
     if paren: return
     # two occurrences of one fresh variable inside a single pattern
     for path, ctx in containers(p):
@@ -1107,6 +1125,7 @@ def _all_mutants(p, rng):
     yield from mut_strat(p, rng)
     yield from mut_rebind(p)
     yield from mut_rebind(p, paren=True)
+    for wrap in ("slice", "tuple", "ref", "at"): yield from mut_rebind(p, paren=wrap)
     yield from mut_aggbound(p)
     yield from mut_recmacro(p)
     yield from mut_macro_misc(p)
